@@ -97,6 +97,7 @@ fn main() {
         "c16" => p_degen::c16(&o),
         "c08" => p_cov::c08(&o),
         "c11" => p_cgr::c11(&o),
+        "c12" => p_cgr::c12(&o),
         "c14" => p_rows::c14(&o),
         "c18" => p_min::c18(&o),
         other => {
